@@ -18,9 +18,9 @@ Definition struct_step (sync : bool) (s : sstate) (e : ev) : option sstate :=
          create consecutive instance ids *)
       if (i =? s_next s)%nat && (match s_cur s with Some _ => true | None => (i =? 0)%nat && negb sync end)
       then Some (mkS (S i) (s_cur s) (s_now s)) else None
-  | ESt i d w =>
+  | ESt i d =>
       match s_cur s, s_now s with
-      | Some _, Some t => if (i =? s_next s)%nat && (w =? Z.max t d) then Some (mkS (S i) (s_cur s) (s_now s)) else None
+      | Some _, Some t => if (i =? s_next s)%nat then Some (mkS (S i) (s_cur s) (s_now s)) else None
       | _, _ => None
       end
   | EAdv t =>
@@ -29,7 +29,11 @@ Definition struct_step (sync : bool) (s : sstate) (e : ev) : option sstate :=
       | _, _ => None
       end
   | ERm i => match s_cur s with Some _ => if (i <? s_next s)%nat then Some s else None | None => None end
-  | ERs _ how _ => match s_cur s with Some _ => if (how <? 3)%nat then Some s else None | None => None end
+  | ERs _ how _ =>
+      match s_cur s with
+      | Some _ => if (how <? 3)%nat then Some s else None
+      | None => if sync && (how =? 2)%nat then Some s else None   (* run_sync's timeout cancelling the future *)
+      end
   | EOr => match s_cur s with Some _ => Some s | None => None end
   | ERun i _ _ =>
       match s_cur s, s_now s with
@@ -86,21 +90,23 @@ Definition chk_cb (idle : bool) (tr : list ev) : bool :=
   end.
 
 (* ---------- timeouts ---------- *)
-Record tmo := mkT { t_inst : nat; t_deadline : Z; t_eff : Z; t_removed : bool }.
+(* t_old: scheduled before the current iteration began *)
+Record tmo := mkT { t_inst : nat; t_deadline : Z; t_old : bool; t_removed : bool }.
 Record tstate := mkTS { ts_now : Z; ts_pend : list tmo }.
 
 Definition t_find (i : nat) (l : list tmo) : option tmo := find (fun t => (t_inst t =? i)%nat) l.
 Definition t_del (i : nat) (l : list tmo) : list tmo := filter (fun t => negb (t_inst t =? i)%nat) l.
 Definition t_mark (i : nat) (l : list tmo) : list tmo :=
-  map (fun t => if (t_inst t =? i)%nat then mkT (t_inst t) (t_deadline t) (t_eff t) true else t) l.
+  map (fun t => if (t_inst t =? i)%nat then mkT (t_inst t) (t_deadline t) (t_old t) true else t) l.
 
 Definition to_step (s : tstate) (e : ev) : option tstate :=
   match e with
-  | EIt t | EAdv t => Some (mkTS t (ts_pend s))
-  | ESt i d w =>
+  | EIt t => Some (mkTS t (map (fun u => mkT (t_inst u) (t_deadline u) true (t_removed u)) (ts_pend s)))
+  | EAdv t => Some (mkTS t (ts_pend s))
+  | ESt i d =>
       match t_find i (ts_pend s) with
       | Some _ => None
-      | None => Some (mkTS (ts_now s) (ts_pend s ++ [mkT i d w false]))
+      | None => Some (mkTS (ts_now s) (ts_pend s ++ [mkT i d false false]))
       end
   | ERm i => Some (mkTS (ts_now s) (t_mark i (ts_pend s)))
   | ERun i RTo _ =>
@@ -109,8 +115,9 @@ Definition to_step (s : tstate) (e : ev) : option tstate :=
       | Some t =>
           if t_removed t then None                      (* ran after remove_timeout *)
           else if ts_now s <? t_deadline t then None    (* ran before its deadline *)
-          else if existsb (fun u => negb (t_removed u) && (t_eff u <? t_eff t)) (ts_pend s)
-               then None                                (* overtook a pending earlier (effective) deadline *)
+          else if existsb (fun u => negb (t_removed u) && t_old u && (t_deadline u <? t_deadline t)) (ts_pend s)
+               then None                                (* overtook a pending strictly earlier requested deadline
+                                                           (one not scheduled during this very iteration) *)
           else Some (mkTS (ts_now s) (t_del i (ts_pend s)))
       end
   | _ => Some s
@@ -126,46 +133,39 @@ Definition chk_to (idle : bool) (tr : list ev) : bool :=
 (* "aged" = an iteration boundary (EIt) has been seen since *)
 Record fstate_m := mkF {
   f_afs : list (nat * (nat * bool));    (* instance, (future, aged since the add_future call) *)
-  f_res : list (nat * bool);            (* resolved future, aged since its resolution *)
-  f_cell : option nat                   (* run_sync with a timeout: the future returned by the function *)
+  f_res : list (nat * bool)             (* resolved future, aged since its resolution *)
 }.
 
 Definition af_find (i : nat) (l : list (nat * (nat * bool))) := find (fun a => (fst a =? i)%nat) l.
 Definition rs_find (f : nat) (l : list (nat * bool)) := find (fun a => (fst a =? f)%nat) l.
 
-Definition fut_step (cancel_ok : bool) (s : fstate_m) (e : ev) : option fstate_m :=
+Definition fut_step (s : fstate_m) (e : ev) : option fstate_m :=
   match e with
-  | EIt _ => Some (mkF (map (fun a => (fst a, (fst (snd a), true))) (f_afs s)) (map (fun a => (fst a, true)) (f_res s)) (f_cell s))
+  | EIt _ => Some (mkF (map (fun a => (fst a, (fst (snd a), true))) (f_afs s)) (map (fun a => (fst a, true)) (f_res s)))
   | EAf i f =>
       match af_find i (f_afs s) with
       | Some _ => None
-      | None => Some (mkF (f_afs s ++ [(i, (f, false))]) (f_res s) (f_cell s))
+      | None => Some (mkF (f_afs s ++ [(i, (f, false))]) (f_res s))
       end
   | ERs f _ _ =>
       match rs_find f (f_res s) with
       | Some _ => None                                        (* a future resolves once *)
-      | None => Some (mkF (f_afs s) (f_res s ++ [(f, false)]) (f_cell s))
+      | None => Some (mkF (f_afs s) (f_res s ++ [(f, false)]))
       end
-  | EEnd i (EndFut f) =>
-      if (i =? 0)%nat && cancel_ok then Some (mkF (f_afs s) (f_res s) (Some f)) else Some s
   | ERun i RFut _ =>
       match af_find i (f_afs s) with
       | None => None                                          (* ran twice or never registered *)
       | Some (_, (f, aged)) =>
-          let resolved_earlier :=
-            match rs_find f (f_res s) with
-            | Some (_, aged') => aged'
-            | None => match f_cell s with Some g => (f =? g)%nat | None => false end
-            end in
+          let resolved_earlier := match rs_find f (f_res s) with Some (_, aged') => aged' | None => false end in
           if aged && resolved_earlier
-          then Some (mkF (filter (fun a => negb (fst a =? i)%nat) (f_afs s)) (f_res s) (f_cell s))
+          then Some (mkF (filter (fun a => negb (fst a =? i)%nat) (f_afs s)) (f_res s))
           else None
       end
   | _ => Some s
   end.
 
-Definition chk_fut (idle cancel_ok : bool) (tr : list ev) : bool :=
-  match fold_opt (fut_step cancel_ok) (mkF [] [] None) tr with
+Definition chk_fut (idle : bool) (tr : list ev) : bool :=
+  match fold_opt fut_step (mkF [] []) tr with
   | Some s =>
       if idle then forallb (fun a => match rs_find (fst (snd a)) (f_res s) with None => true | Some _ => false end) (f_afs s)
       else true
